@@ -247,6 +247,50 @@ func vfRunSend(t *testing.T, c *vfSCase, tg *vfdoubles.Target, startDb int, star
 	return log[nSeed:]
 }
 
+// vfRunResumed is the restart after a crash: a FRESH RedisOutput on the crashed
+// target reads its start point with the real StartPoint (which also sets the
+// database the run re-selects), and the real sendAof replays the source stream
+// from that offset to its end, followed by a final close. It returns what
+// StartPoint said and the requests of the resumed run; ok=false when there is
+// no position to resume from inside the stream.
+func vfRunResumed(t *testing.T, c *vfSCase, tk *vfdoubles.Target, start int64, stream []byte, boundary map[int64]bool) (sp StartPoint, log2 []vfdoubles.LogEntry, ok bool) {
+	synctest.Test(t, func(t *testing.T) {
+		ro := vfNewOutput(c, tk)
+		var err error
+		sp, err = ro.StartPoint(context.Background(), []string{c.rid})
+		if err != nil || sp.RunId == "?" || sp.Offset < start || sp.Offset > start+int64(len(stream)) || !boundary[sp.Offset] {
+			tk.CloseAll()
+			return
+		}
+		ok = true
+		n0 := tk.LogLen()
+		ctx, cancel := context.WithCancel(context.Background())
+		defer cancel()
+		pr, pw := io.Pipe()
+		done := make(chan error, 1)
+		go func() {
+			done <- ro.sendAof(ctx, sp.RunId, bufio.NewReaderSize(pr, 4096), sp.Offset, -1)
+		}()
+		schedDone := make(chan struct{})
+		go func() {
+			defer close(schedDone)
+			time.Sleep(time.Millisecond)
+			if rest := stream[sp.Offset-start:]; len(rest) > 0 {
+				pw.Write(rest)
+			}
+			time.Sleep(13 * time.Second) // every ticker fires at least once
+			pw.Close()
+		}()
+		<-done
+		pr.Close()
+		<-schedDone
+		synctest.Wait()
+		tk.CloseAll()
+		log2 = tk.LogCopy()[n0:]
+	})
+	return
+}
+
 // vfRenderLog prints each request with the DB it executes in.
 func vfRenderLog(tag int, log []vfdoubles.LogEntry) []string {
 	cur := 0
@@ -324,7 +368,7 @@ func vfMapDb(c *vfSCase, src int) int {
 // keep-alives, database switches, transaction brackets, administrative and
 // configured-out commands and filtered keys; tag with the mapped database.
 // srcDbAt[i] = mapped target DB in force after raw command i (or -2 unknown).
-func vfExpected(c *vfSCase, startDb int, start int64, raw [][][]byte) (exp []vfExpCmd, ends []int64, dbAfter []int, inTxnAfter []bool) {
+func vfExpected(c *vfSCase, startDb int, start int64, raw [][][]byte) (exp []vfExpCmd, ends []int64, dbAfter []int, grpAfter []int) {
 	off := start
 	srcSel := false
 	srcDb := 0
@@ -415,7 +459,7 @@ func vfExpected(c *vfSCase, startDb int, start int64, raw [][][]byte) (exp []vfE
 			exp = append(exp, vfExpCmd{db: tgt, args: append([][]byte{[]byte(name)}, out...), end: off, grp: curGrp})
 		}
 		dbAfter = append(dbAfter, tgt)
-		inTxnAfter = append(inTxnAfter, curGrp != 0)
+		grpAfter = append(grpAfter, curGrp)
 	}
 	return
 }
@@ -748,7 +792,7 @@ func vfSenderCase(t *testing.T, s *vfutil.Session, r *vfutil.Rand, c *vfSCase, t
 
 	// ------------------------------------------------------------ monitors
 	startDb := c.sdb
-	exp, cmdEnds, dbAfter, inTxnAfter := vfExpected(c, startDb, c.start, c.raw)
+	exp, cmdEnds, dbAfter, grpAfter := vfExpected(c, startDb, c.start, c.raw)
 	boundary := map[int64]bool{c.start: true}
 	for _, e := range cmdEnds {
 		boundary[e] = true
@@ -875,17 +919,88 @@ func vfSenderCase(t *testing.T, s *vfutil.Session, r *vfutil.Rand, c *vfSCase, t
 		if wantDb < 0 {
 			wantDb = 0
 		}
+		// resuming inside a source transaction is partial execution exactly when a
+		// command of that transaction which the target must execute lies beyond the
+		// resume offset (the resumed run would execute it outside the transaction that
+		// held the earlier ones); a remainder that is filtered out entirely is harmless
 		inTxn := false
 		if idx >= 0 {
 			wantDb = dbAfter[idx]
-			inTxn = inTxnAfter[idx]
+			if g := grpAfter[idx]; g != 0 {
+				for _, e := range exp {
+					if e.grp == g && e.end > sp.off {
+						inTxn = true
+					}
+				}
+			}
 		}
 		// only meaningful when something will still be replayed in that DB
 		if sp.db != wantDb {
 			s.Violate("C02:resume-wrong-db", fmt.Sprintf("crash after %d requests: resume offset %d selects db %d, source intends db %d", sp.k, sp.off, sp.db, wantDb), replay(map[string]interface{}{"k": sp.k, "offset": sp.off}))
 		}
 		if c.txn && inTxn {
-			s.Violate("C09:resume-inside-transaction", fmt.Sprintf("crash after %d requests: resume offset %d lies inside a source transaction", sp.k, sp.off), replay(map[string]interface{}{"k": sp.k, "offset": sp.off}))
+			s.Violate("C09:resume-inside-transaction", fmt.Sprintf("crash after %d requests: resume offset %d lies inside a source transaction with commands still to execute", sp.k, sp.off), replay(map[string]interface{}{"k": sp.k, "offset": sp.off}))
+		}
+	}
+	// C02, the real restart: from a sample of crash points run the resumed tool and
+	// look at what the target has executed over BOTH runs
+	if c.resume && len(sps) > 0 {
+		nRes := vfutil.Scale(2, 5)
+		if src != "gen" {
+			nRes = len(sps)
+		}
+		for i := 0; i < nRes; i++ {
+			sp := sps[r.Intn(len(sps))]
+			if src != "gen" {
+				sp = sps[i]
+			}
+			pre := append(append([]vfdoubles.LogEntry{}, seedLog...), log[:sp.k]...)
+			tk := vfdoubles.ReplayWith(pre, 0, true)
+			sp2, log2, ok := vfRunResumed(t, c, tk, c.start, stream, boundary)
+			if !ok {
+				s.Count("resumed_none")
+				continue
+			}
+			s.Count("resumed_runs")
+			s.Add("resumed_requests", len(log2))
+			app1, _, _ := vfAppliedOf(c, log[:sp.k])
+			app2, _, _ := vfAppliedOf(c, log2)
+			rp := replay(map[string]interface{}{"k": sp.k, "offset": sp2.Offset, "db": sp2.DbId})
+			// the resumed run must execute exactly the commands that end after the resume offset
+			first := 0
+			for first < len(exp) && exp[first].end <= sp2.Offset {
+				first++
+			}
+			want2 := exp[first:]
+			if first > len(app1) {
+				s.Violate("C02:write-skipped", fmt.Sprintf("crash after %d requests: restart at %d skips %d commands the target never executed", sp.k, sp2.Offset, first-len(app1)), rp)
+				continue
+			}
+			if c.txn && first < len(app1) {
+				s.Violate("C02:write-repeated", fmt.Sprintf("transactional mode, crash after %d requests: restart at %d repeats %d commands", sp.k, sp2.Offset, len(app1)-first), rp)
+				continue
+			}
+			bad := ""
+			for j, a := range app2 {
+				if j >= len(want2) {
+					bad = fmt.Sprintf("resumed run executes a command the stream does not hold there: %s", vfFmtCmd(a.db, a.args))
+					break
+				}
+				if !vfSameCmd(a.args, want2[j].args) {
+					bad = fmt.Sprintf("resumed run #%d executes %s, the stream holds %s", j, vfFmtCmd(a.db, a.args), vfFmtCmd(want2[j].db, want2[j].args))
+					break
+				}
+				if a.db != want2[j].db {
+					bad = fmt.Sprintf("resumed run #%d executes %s, the source intends db %d", j, vfFmtCmd(a.db, a.args), want2[j].db)
+					break
+				}
+			}
+			if bad == "" && !c.txn && len(app2) < len(want2) {
+				bad = fmt.Sprintf("resumed run ended (final flush) with %d of the %d remaining commands executed", len(app2), len(want2))
+			}
+			if bad != "" {
+				s.Violate("C02:resumed-run-differs", fmt.Sprintf("crash after %d requests, restart at %d in db %d: %s", sp.k, sp2.Offset, sp2.DbId, bad), rp)
+			}
 		}
 	}
 }
